@@ -71,6 +71,15 @@ MUTANTS = [
     ("write-drops-pattern-index-of-source", "System.tla", "  /\\ UNCHANGED convs\n\n\\* coverage", "  /\\ convs' = [convs EXCEPT ![i].pat = {}]\n\n\\* coverage", "world", "System", [], {}),
     ("shacl-forgets-patterns", "Writers.tla", "LET r == c.recs[i]  pat == IF HasPat(r) THEN r.pat ELSE NoPat IN", "LET r == c.recs[i]  pat == NoPat IN", "world", "System", [], {}),
     ("epm-reads-with-default-delimiter", "Writers.tla", "f.fmt = \"epm\" -> ReadEPM(f.doc, f.delim)", "f.fmt = \"epm\" -> ReadEPM(<<>>, f.delim)", "world", "System", [], {}),
+    # Hooked.tla: converters with an overridden identifier hook
+    ("hook-asked-with-synonym", "Hooked.tla", "ELSE LET np == Get(c.s2p, p)  r == HookAns(h, np, id) IN", "ELSE LET np == Get(c.s2p, p)  r == HookAns(h, p, id) IN", "other",
+     ("mc/MC_Hook.tla", "MCSpec", {"FoldMap": "<-Fold", "MaxRecs": 1, "ProbeLen": 3, "IdLen": 1}), ["Inv_C07H", "Inv_SynonymKey"], {}),
+    ("hook-skipped-by-is-curie", "Hooked.tla", "IsCurieH(c, h, s) == IsVal(ExpandH(c, h, s, Default))", "IsCurieH(c, h, s) == IsVal(Expand(c, s, Default))", "other",
+     ("mc/MC_Hook.tla", "MCSpec", {"FoldMap": "<-Fold", "MaxRecs": 1, "ProbeLen": 3, "IdLen": 1}), ["Inv_C07H"], {}),
+    ("hook-rejection-falls-back-to-raw-identifier", "Hooked.tla", "IF IsVal(r) THEN Val(<<np, r[2]>>)\n            ELSE IF strict THEN Raise(\"curies\") ELSE None1", "IF IsVal(r) THEN Val(<<np, r[2]>>)\n            ELSE Val(<<np, id>>)", "other",
+     ("mc/MC_Hook.tla", "MCSpec", {"FoldMap": "<-Fold", "MaxRecs": 1, "ProbeLen": 3, "IdLen": 1}), ["Inv_C07H"], {}),
+    ("hook-expand-uses-unhooked-identifier", "Hooked.tla", "IF IsVal(r) THEN ExpandRef(c, r[2][1], r[2][2], md) ELSE Tail3(md, s)\nExpandAllH", "IF IsVal(r) THEN ExpandRef(c, r[2][1], PartAfter(s, c.delim), md) ELSE Tail3(md, s)\nExpandAllH", "other",
+     ("mc/MC_Hook.tla", "MCSpec", {"FoldMap": "<-Fold", "MaxRecs": 1, "ProbeLen": 3, "IdLen": 1}), ["Inv_C07H"], {}),
 ]
 
 
